@@ -268,6 +268,10 @@ def cases(group):
                                 p["score_threshold"] = thr
                             legs.append(dict(p=p))
                         yield dict(kind=kind, dir=d, X=X, y=y, legs=legs)
+                        if thr is None and len(sched) >= 2:
+                            # the same chain with an unrelated selector of the same class fitted on other
+                            # same-shape data before every warm leg
+                            yield dict(kind=kind, dir=d, X=X, y=y, legs=legs, sibling=True)
 
 
 # --------------------------------------------------------------------------------------
@@ -486,6 +490,9 @@ def check(case):
                 if key in p:
                     setattr(s, key, p[key])  # VoronoiFPS hides these from set_params (**kwargs)
             n_before = int(getattr(s, "n_selected_", 0))
+            if case.get("sibling"):
+                sibling = sel.sibling_fit(kind, d, X, y, legs[li - 1]["p"])  # noqa: F841 (kept alive)
+                r.count("warm_legs_after_sibling_fit")
         # (re)install the recorder for this leg
         if "score" in vars(s):
             del s.score
